@@ -84,6 +84,23 @@ func emitCardEnc(o *Out, q *carddav.AddressBookQuery) {
 
 // the RFC 6352 document of a query, from the independent writer
 func cardQueryDoc(q *carddav.AddressBookQuery, mut string) *wEl {
+	// "limit-zero+<defect>": a document with nresults 0 AND another defect - the defect must still be refused
+	if strings.HasPrefix(mut, "limit-zero+") {
+		root := cardQueryDoc(q, strings.TrimPrefix(mut, "limit-zero+"))
+		keep := root.children[:0]
+		for _, c := range root.children {
+			if c.local != "limit" {
+				keep = append(keep, c)
+			}
+		}
+		root.children = keep
+		zero := "0"
+		if q.Limit%2 == 0 {
+			zero = "18446744073709551615"
+		}
+		root.Add(E(nsCard, "limit", E(nsCard, "nresults").T(zero)))
+		return root
+	}
 	tm := func(t carddav.TextMatch) *wEl {
 		e := E(nsCard, "text-match").T(t.Text)
 		if t.NegateCondition {
@@ -348,7 +365,8 @@ func famCardWire(o *Out, r *RNG, thorough bool) {
 		n = 50000
 	}
 	muts := []string{"", "", "", "", "explicit-defaults", "bad-test", "empty-test", "bad-match-type", "bad-negate", "ind-with-match", "param-ind-with-match",
-		"allprop-and-prop", "wrong-root", "wrong-root-ns", "bad-nresults", "negative-nresults", "padded-nresults", "no-filter", "no-prop", "limit-zero"}
+		"allprop-and-prop", "wrong-root", "wrong-root-ns", "bad-nresults", "negative-nresults", "padded-nresults", "no-filter", "no-prop", "limit-zero",
+		"limit-zero+ind-with-match", "limit-zero+param-ind-with-match", "limit-zero+allprop-and-prop", "limit-zero+bad-test", "limit-zero+bad-match-type", "limit-zero+bad-negate", "limit-zero+"}
 	for i := 0; i < n; i++ {
 		q := randCardWireQuery(r, i%10 != 0)
 		emitCardEnc(o, q)
